@@ -1,8 +1,321 @@
-(* C16 -- JOSE objects verify/decrypt only if untampered (structural layer). *)
-From Verif Require Import Lib.Base Lib.Sx Model.Jose Proofs.Jose.
+(* C16 -- JOSE objects verify/decrypt only if untampered, for every algorithm.
+   Property theorems only.  The cryptographic primitives (AES, SHA-2/HMAC, GCM, RSA, ECDSA, flate)
+   and encoding/json are NOT modelled; what is proved is all the byte-level logic the library
+   itself adds between them (model: coq/Model/Jose.v, transcribed from https/jose and
+   https/jose/cipher), and -- in clearly marked theorems -- the end-to-end clauses under an
+   explicit idealisation of the primitives, stated as hypotheses of the theorem.
+   [wf_bytes b]: every element of b is < 256 (what a Go []byte can hold). *)
+From Verif Require Import Lib.Base Lib.Sx Model.Jose.
+From Verif Require Import Proofs.Jose Proofs.JoseCompact Proofs.JoseCipher Proofs.JoseWrap Proofs.JoseFixed Proofs.JoseIdeal.
 Open Scope N_scope.
 
-Theorem c16_b64_char_not_dot v : b64_char v <> ch_dot.
-Proof. exact (b64_char_not_dot v). Qed.
+(* ---------------------------------------------------------------- base64url (encoding.go) *)
+(* base64URLDecode (base64URLEncode b) = b for every byte string, through the padding
+   arithmetic of base64URLDecode and Go's padded URL decoder; the encoder's alphabet is
+   A-Z a-z 0-9 - _ (so never '.', '=' or white space); the encoder is injective. *)
+Theorem c16_b64 :
+  (forall b, wf_bytes b -> b64url_decode (b64url_encode b) = Some b) /\
+  (forall b, Forall is_b64_char (b64url_encode b) /\ Forall (fun c => c <> ch_dot) (b64url_encode b)) /\
+  (forall a b, wf_bytes a -> wf_bytes b -> b64url_encode a = b64url_encode b -> a = b).
+Proof.
+  split; [exact b64_dec_enc|]. split; [|exact b64url_encode_injective].
+  intro b. split; [apply b64url_encode_alphabet|apply b64url_encode_no_dot].
+Qed.
 
-Print Assumptions c16_b64_char_not_dot.
+(* base64URLEncode (TrimRight of the padded stdlib encoding) is the unpadded RFC 4648 encoding *)
+Theorem c16_b64_unpadded b : b64url_encode b = b64_enc b.
+Proof. exact (b64url_encode_direct b). Qed.
+
+(* ---------------------------------------------------------------- compact serialization (jws.go, jwe.go) *)
+(* parse (serialize o) returns the same protected bytes, payload and signature ... *)
+Theorem c16_compact_jws o : wf_jws o -> parse_jws_compact (jws_compact o) true = Ok o.
+Proof. exact (parse_jws_compact_serialize o). Qed.
+
+(* ... and the same protected bytes, encrypted key, IV, ciphertext and tag (a JWE protected header is
+   never empty: it carries alg and enc; the parser rejects an empty one) *)
+Theorem c16_compact_jwe o : wf_jwe o -> je_prot o <> [] -> parse_jwe_compact (jwe_compact o) 1 = Ok o.
+Proof. exact (parse_jwe_compact_serialize o). Qed.
+
+(* only texts with exactly 3 / 5 dot-separated parts (after white space removal) are accepted *)
+Theorem c16_compact_part_count :
+  (forall s j o, parse_jws_compact s j = Ok o -> length (split_dot (strip_ws s)) = 3%nat) /\
+  (forall s h o, parse_jwe_compact s h = Ok o -> length (split_dot (strip_ws s)) = 5%nat).
+Proof. split; [exact parse_jws_compact_parts|exact parse_jwe_compact_parts]. Qed.
+
+(* the verifier's signing input is the signer's: it is recomputed from the protected bytes the
+   parser kept, which are the signer's bytes *)
+Theorem c16_verifier_signing_input o :
+  wf_jws o ->
+  match parse_jws_compact (jws_compact o) true with
+  | Ok o' => signing_input (js_prot o') (js_payload o') = signing_input (js_prot o) (js_payload o)
+  | _ => False
+  end.
+Proof. exact (verifier_signing_input o). Qed.
+
+(* different (protected, payload) => different signing input b64(protected) '.' b64(payload) *)
+Theorem c16_signing_input_injective p l p' l' :
+  wf_bytes p -> wf_bytes l -> wf_bytes p' -> wf_bytes l' ->
+  signing_input p l = signing_input p' l' -> p = p' /\ l = l'.
+Proof. exact (signing_input_injective p l p' l'). Qed.
+
+(* different (protected, aad-or-absent) => different AAD b64(protected) ['.' b64(aad)] *)
+Theorem c16_aad_injective p a p' a' :
+  wf_bytes p -> wf_bytes p' -> wf_aad a -> wf_aad a' ->
+  aad_input p a = aad_input p' a' -> p = p' /\ a = a'.
+Proof. exact (aad_input_injective p a p' a'). Qed.
+
+(* ---------------------------------------------------------------- CBC-HMAC (cipher/cbc_hmac.go) *)
+(* the tag input aad || iv || ct || uint64_be(8*len(aad)) determines aad, iv and ct, for nonces of
+   one fixed length (the code: 16) and AAD below 2^61 bytes (its bit length fits the field) *)
+Theorem c16_mac_input_injective aad iv ct aad' iv' ct' :
+  length iv = length iv' -> lenN aad < 2305843009213693952 -> lenN aad' < 2305843009213693952 ->
+  mac_input aad iv ct = mac_input aad' iv' ct' -> aad = aad' /\ iv = iv' /\ ct = ct'.
+Proof. exact (mac_input_injective aad iv ct aad' iv' ct'). Qed.
+
+(* PKCS#7: unpad (pad b) = b for every length (block size 16, and every block size 1..255);
+   the padded length is a positive multiple of the block size; unpadBuffer never panics, on any
+   buffer; what it accepts is body ++ v copies of v with 1 <= v <= block size *)
+Theorem c16_pkcs7 :
+  (forall b, unpad_buffer (pad_buffer b 16) 16 = Ok b) /\
+  (forall b bs, 0 < bs < 256 -> unpad_buffer (pad_buffer b bs) bs = Ok b /\
+                lenN (pad_buffer b bs) mod bs = 0 /\ lenN b < lenN (pad_buffer b bs)) /\
+  (forall b bs s, unpad_buffer b bs <> Panic s) /\
+  (forall b bs body, unpad_buffer b bs = Ok body ->
+     exists v, b = body ++ repeatN v v /\ 1 <= v <= bs /\ lenN b mod bs = 0 /\ b <> []).
+Proof.
+  split; [intro b; apply unpad_pad; lia|].
+  split; [intros b bs H; split; [apply unpad_pad; exact H|apply pad_buffer_length; lia]|].
+  split; [exact unpad_total|exact unpad_ok_spec].
+Qed.
+
+(* Seal then Open returns the plaintext, for every HMAC with at least tagbytes of output and every
+   length-preserving CBC pair that inverts; the tag is the first tagbytes bytes of the HMAC *)
+Theorem c16_cbc_seal_open hm cbcenc cbcdec tb nonce pt aad :
+  (forall m, tb <= lenN (hm m)) -> lenN nonce = block_size ->
+  (forall iv x, cbcdec iv (cbcenc iv x) = x) -> (forall iv x, lenN (cbcenc iv x) = lenN x) ->
+  exists sealed, cbc_seal hm cbcenc tb nonce pt aad = Ok sealed /\ cbc_open hm cbcdec tb nonce sealed aad = Ok pt.
+Proof. exact (cbc_open_seal hm cbcenc cbcdec tb nonce pt aad). Qed.
+
+(* ---------------------------------------------------------------- key wrap (cipher/key_wrap.go) *)
+(* for EVERY pair of block functions with D (E x) = x on 16-byte blocks (E producing 16-byte
+   blocks) and every key of 16, 24, 32, ... bytes: KeyUnwrap D (KeyWrap E k) = k; and a wrapping
+   made with ANY other 8-byte integrity check value is rejected *)
+Theorem c16_keywrap E D :
+  (forall x, length x = 16%nat -> D (E x) = x) -> (forall x, length x = 16%nat -> length (E x) = 16%nat) ->
+  (forall cek, lenN cek mod 8 = 0 -> 16 <= lenN cek ->
+     exists out, key_wrap E cek = Ok out /\ key_unwrap D out = Ok cek) /\
+  (forall iv cek, length iv = 8%nat -> iv <> default_iv -> lenN cek mod 8 = 0 -> 16 <= lenN cek ->
+     exists out, key_wrap_iv E iv cek = Ok out /\ key_unwrap D out = Err e_wrap_icv).
+Proof.
+  intros HD HE. split; [exact (key_unwrap_wrap E D HD HE)|exact (key_unwrap_bad_icv E D HD HE)].
+Qed.
+
+(* the ICV the code checks against is RFC 3394's A6A6A6A6A6A6A6A6 (regenerated from the source) *)
+Theorem c16_keywrap_icv : default_iv = [166; 166; 166; 166; 166; 166; 166; 166].
+Proof. reflexivity. Qed.
+
+(* ---------------------------------------------------------------- fixed-width integers (asymmetric.go, jwk.go) *)
+(* ECDSA r || s has exactly 2*keyBytes bytes and splits back into r and s, for all values below
+   256^keyBytes, leading zero bytes included; EC coordinates likewise *)
+Theorem c16_fixed_width :
+  (forall r s kb, r < 256 ^ kb -> s < 256 ^ kb ->
+     exists sig, ecdsa_sig r s kb = Ok sig /\ lenN sig = 2 * kb /\ ecdsa_split sig kb = Ok (r, s)) /\
+  (forall x size, x < 256 ^ size ->
+     exists out, fixed_size (be_bytes x) size = Ok out /\ lenN out = size /\ be_val out = x) /\
+  (forall n, be_val (be_bytes n) = n).
+Proof. split; [exact ecdsa_sig_split|]. split; [exact coordinate_fixed|exact be_val_be_bytes]. Qed.
+
+(* RFC 7638 member order and punctuation: e, kty, n and crv, kty, x, y with fixed-width x, y *)
+Theorem c16_thumbprint_template :
+  (forall e n, rsa_thumb_input e n =
+     t_rsa_1 ++ b64url_encode (buffer_from_int e) ++ t_rsa_2 ++ b64url_encode (be_bytes n) ++ t_end) /\
+  (forall crv x y size, x < 256 ^ size -> y < 256 ^ size ->
+     exists xb yb, ec_thumb_input crv x y size =
+       Ok (t_ec_1 ++ crv ++ t_ec_2 ++ b64url_encode xb ++ t_ec_3 ++ b64url_encode yb ++ t_end) /\
+       lenN xb = size /\ lenN yb = size /\ be_val xb = x /\ be_val yb = y).
+Proof. split; [exact rsa_thumb_template|exact ec_thumb_template]. Qed.
+
+(* ---------------------------------------------------------------- end to end, primitives idealised *)
+(* IDEALISATION (hypothesis ideal): under the right key exactly the produced (signing input,
+   signature) pair verifies.  Then sign -> CompactSerialize -> ParseSigned -> Verify returns the
+   payload, and ANY other triple of decoded fields (protected, payload, signature) -- in
+   particular every single-bit flip of any of them -- makes Verify return an error; a key under
+   which nothing verifies gives an error. *)
+Theorem c16_roundtrip_sym_jws verify prot payload sig :
+  wf_bytes prot -> wf_bytes payload -> wf_bytes sig ->
+  (forall m s, verify m s = true <-> m = signing_input prot payload /\ s = sig) ->
+  bind (parse_jws_compact (jws_compact {| js_prot := prot; js_payload := payload; js_sig := sig |}) true)
+       (jws_verify verify) = Ok payload.
+Proof. exact (jws_roundtrip verify prot payload sig). Qed.
+
+Theorem c16_tamper_sym_jws verify prot payload sig :
+  wf_bytes prot -> wf_bytes payload ->
+  (forall m s, verify m s = true <-> m = signing_input prot payload /\ s = sig) ->
+  forall o', wf_jws o' -> o' <> {| js_prot := prot; js_payload := payload; js_sig := sig |} ->
+  jws_verify verify o' = Err e_crypto.
+Proof. exact (jws_tamper verify prot payload sig). Qed.
+
+Theorem c16_other_key_jws verify_other :
+  (forall m s, verify_other m s = false) -> forall o', jws_verify verify_other o' = Err e_crypto.
+Proof. exact (jws_other_key verify_other). Qed.
+
+(* IDEALISATION: only the produced encrypted key unwraps (to the content key), and under the
+   content key exactly the produced (IV, ciphertext||tag, AAD) opens (to the plaintext); the
+   primitives do not panic on a nonce of the right size.  Then encrypt -> CompactSerialize ->
+   ParseEncrypted -> Decrypt returns the plaintext; any change of protected header, encrypted
+   key, IV, AAD or of ciphertext||tag gives an error, never a panic.  (Modes with an empty
+   encrypted key -- dir, ECDH-ES -- have nothing to unwrap and are outside these two theorems.) *)
+Theorem c16_roundtrip_sym_jwe unwrapk open ns prot ek iv ct tag aad cek plaintext :
+  wf_jwe {| je_prot := prot; je_key := ek; je_iv := iv; je_ct := ct; je_tag := tag |} ->
+  prot <> [] -> lenN iv = ns ->
+  (forall k c, unwrapk k = Ok c <-> k = ek /\ c = cek) ->
+  (forall i c a p, open cek i c a = Ok p <-> i = iv /\ c = ct ++ tag /\ a = aad_input prot aad /\ p = plaintext) ->
+  bind (parse_jwe_compact (jwe_compact {| je_prot := prot; je_key := ek; je_iv := iv; je_ct := ct; je_tag := tag |}) 1)
+       (fun o' => jwe_decrypt unwrapk open ns o' aad) = Ok plaintext.
+Proof. exact (jwe_roundtrip unwrapk open ns prot ek iv ct tag aad cek plaintext). Qed.
+
+Theorem c16_tamper_sym_jwe unwrapk open ns prot ek iv ct tag aad cek plaintext :
+  wf_jwe {| je_prot := prot; je_key := ek; je_iv := iv; je_ct := ct; je_tag := tag |} ->
+  (forall k c, unwrapk k = Ok c <-> k = ek /\ c = cek) ->
+  (forall k s, unwrapk k <> Panic s) ->
+  (forall i c a p, open cek i c a = Ok p <-> i = iv /\ c = ct ++ tag /\ a = aad_input prot aad /\ p = plaintext) ->
+  (forall k i c a s, lenN i = ns -> open k i c a <> Panic s) ->
+  wf_aad aad ->
+  (forall o' aad', wf_bytes (je_prot o') -> wf_aad aad' ->
+     je_prot o' <> prot \/ je_key o' <> ek \/ je_iv o' <> iv \/ je_ct o' ++ je_tag o' <> ct ++ tag \/ aad' <> aad ->
+     jwe_decrypt unwrapk open ns o' aad' = Err e_crypto) /\
+  (* field-wise form (bit flips keep lengths): any different quintuple with a ciphertext of the same length *)
+  (forall o', wf_bytes (je_prot o') -> length (je_ct o') = length ct ->
+     o' <> {| je_prot := prot; je_key := ek; je_iv := iv; je_ct := ct; je_tag := tag |} ->
+     jwe_decrypt unwrapk open ns o' aad = Err e_crypto).
+Proof.
+  intros W U UT O OT WA. split.
+  - exact (jwe_tamper unwrapk open ns prot ek iv ct tag aad cek plaintext W U UT O OT WA).
+  - exact (jwe_tamper_fields unwrapk open ns prot ek iv ct tag aad cek plaintext W U UT O OT WA).
+Qed.
+
+(* The CBC-HMAC AEAD itself, built on an idealised MAC only (the only valid (message, tag) pair
+   under the MAC key is the produced one): Open succeeds only on the produced AAD, IV,
+   ciphertext and tag -- the tag is compared over its full length and covers all three. *)
+Theorem c16_tamper_cbc_hmac hm cbcdec tb aad0 iv0 ct0 tag0 :
+  lenN aad0 < 2305843009213693952 ->
+  (forall m t, tag_of (hm m) tb = Ok t -> m = mac_input aad0 iv0 ct0 /\ t = tag0) ->
+  forall aad iv ct tag p,
+  length iv = length iv0 -> lenN tag = tb -> lenN tag0 = tb -> lenN aad < 2305843009213693952 ->
+  cbc_open hm cbcdec tb iv (ct ++ tag) aad = Ok p ->
+  aad = aad0 /\ iv = iv0 /\ ct = ct0 /\ tag = tag0.
+Proof. exact (cbc_tamper hm cbcdec tb aad0 iv0 ct0 tag0). Qed.
+
+(* documented non-change: ciphertext and tag are concatenated before the AEAD sees them, so
+   moving the boundary between the two members (not a bit flip) is the same input *)
+Theorem c16_ct_tag_boundary unwrapk open ns p k i c t x a :
+  jwe_decrypt unwrapk open ns {| je_prot := p; je_key := k; je_iv := i; je_ct := c ++ [x]; je_tag := t |} a =
+  jwe_decrypt unwrapk open ns {| je_prot := p; je_key := k; je_iv := i; je_ct := c; je_tag := x :: t |} a.
+Proof. exact (jwe_ct_tag_boundary unwrapk open ns p k i c t x a). Qed.
+
+(* ---------------------------------------------------------------- totality (imported by C07) *)
+Theorem jose_b64_total s : forall p, b64url_decode_r s <> Panic p.
+Proof. exact (b64url_decode_r_total s). Qed.
+
+Theorem jose_unpad_total b bs : forall p, unpad_buffer b bs <> Panic p.
+Proof. exact (unpad_total b bs). Qed.
+
+Theorem jose_keyunwrap_total D ct : forall p, key_unwrap D ct <> Panic p.
+Proof. exact (key_unwrap_total D ct). Qed.
+
+Theorem jose_compact_parse_total :
+  (forall s j p, parse_jws_compact s j <> Panic p) /\ (forall s h p, parse_jwe_compact s h <> Panic p).
+Proof. split; [exact parse_jws_compact_total|exact parse_jwe_compact_total]. Qed.
+
+(* aeadContentCipher.decrypt: the stdlib AEAD precondition len(iv) = NonceSize is established by
+   the guard, so decrypt never panics, for every IV the peer sends; instance for CBC-HMAC *)
+Theorem jose_aead_decrypt_total ns open iv ct tag aad :
+  (forall i c a s, lenN i = ns -> open i c a <> Panic s) ->
+  forall s, aead_decrypt ns open iv ct tag aad <> Panic s.
+Proof. exact (aead_decrypt_total ns open iv ct tag aad). Qed.
+
+Theorem jose_cbc_decrypt_total hm cbcdec tb iv ct tag aad :
+  (forall m, tb <= lenN (hm m)) ->
+  forall s, aead_decrypt block_size (cbc_open hm cbcdec tb) iv ct tag aad <> Panic s.
+Proof. exact (cbc_decrypt_total hm cbcdec tb iv ct tag aad). Qed.
+
+Theorem jose_ecdsa_split_total sig ks : forall s, ecdsa_split sig ks <> Panic s.
+Proof. exact (ecdsa_split_total sig ks). Qed.
+
+(* ---------------------------------------------------------------- the code before the fixes *)
+(* each guard is necessary: without it the model reaches the panic the harness reproduced on
+   the pinned tree (fix commits 6f35876, ef84a03, 958d470) *)
+Theorem c16_unpad_unguarded_refuted : unpad_buffer_g false [] 16 = Panic 1.
+Proof. exact unpad_unguarded_refuted. Qed.
+Theorem c16_keyunwrap_unguarded_refuted D :
+  key_unwrap_g 0 D [] = Panic 7 /\ key_unwrap_g 0 D default_iv = Ok [].
+Proof. split; [exact (key_unwrap_unguarded_refuted D)|exact (key_unwrap_unguarded_bare_icv D)]. Qed.
+Theorem c16_nonce_unguarded_refuted :
+  aead_decrypt_g false 12 (fun _ _ _ => Ok []) (repeatN 0 11) [] [] [] = Panic 6 /\
+  cbc_open (fun _ => repeatN 0 32) (fun _ x => x) 16 [1; 2; 3] (repeatN 0 16) [] = Panic 5.
+Proof. split; [exact aead_decrypt_unguarded_refuted|exact cbc_open_short_nonce_panics]. Qed.
+
+(* ---------------------------------------------------------------- non-vacuity *)
+(* RFC 7515 A.1 header and a payload: the compact text parses back; RFC 3394 4.1 vector shape:
+   a 16-byte key under the identity "cipher" wraps to 24 bytes and unwraps *)
+Example c16_compact_nonvacuous :
+  let o := {| js_prot := [123; 34; 97; 108; 103; 34; 58; 34; 72; 83; 50; 53; 54; 34; 125];
+              js_payload := [0; 255; 16]; js_sig := [1; 2; 3; 4; 5] |} in
+  wf_jws o /\ parse_jws_compact (jws_compact o) true = Ok o /\
+  jws_compact o = [101; 121; 74; 104; 98; 71; 99; 105; 79; 105; 74; 73; 85; 122; 73; 49; 78; 105; 74; 57; 46;
+                   65; 80; 56; 81; 46; 65; 81; 73; 68; 66; 65; 85].
+Proof. vm_compute. repeat split; repeat constructor. Qed.
+
+Example c16_keywrap_nonvacuous :
+  let E := fun x : bytes => x in
+  (forall x, length x = 16%nat -> E (E x) = x) /\
+  key_unwrap E (match key_wrap E (repeatN 7 16) with Ok o => o | _ => [] end) = Ok (repeatN 7 16) /\
+  lenN (match key_wrap E (repeatN 7 16) with Ok o => o | _ => [] end) = 24.
+Proof. split; [reflexivity|]. vm_compute. auto. Qed.
+
+Example c16_pkcs7_nonvacuous :
+  pad_buffer [1; 2; 3] 16 = [1; 2; 3; 13; 13; 13; 13; 13; 13; 13; 13; 13; 13; 13; 13; 13] /\
+  pad_buffer (repeatN 9 16) 16 = repeatN 9 16 ++ repeatN 16 16 /\
+  unpad_buffer [1; 2; 3; 13; 13; 13; 13; 13; 13; 13; 13; 13; 13; 13; 13; 12] 16 = Err e_pad.
+Proof. vm_compute. auto. Qed.
+
+Example c16_fixed_width_nonvacuous :
+  ecdsa_sig 1 258 4 = Ok [0; 0; 0; 1; 0; 0; 1; 2] /\ ecdsa_split [0; 0; 0; 1; 0; 0; 1; 2] 4 = Ok (1, 258).
+Proof. vm_compute. auto. Qed.
+
+Print Assumptions c16_b64.
+Print Assumptions c16_b64_unpadded.
+Print Assumptions c16_compact_jws.
+Print Assumptions c16_compact_jwe.
+Print Assumptions c16_compact_part_count.
+Print Assumptions c16_verifier_signing_input.
+Print Assumptions c16_signing_input_injective.
+Print Assumptions c16_aad_injective.
+Print Assumptions c16_mac_input_injective.
+Print Assumptions c16_pkcs7.
+Print Assumptions c16_cbc_seal_open.
+Print Assumptions c16_keywrap.
+Print Assumptions c16_keywrap_icv.
+Print Assumptions c16_fixed_width.
+Print Assumptions c16_thumbprint_template.
+Print Assumptions c16_roundtrip_sym_jws.
+Print Assumptions c16_tamper_sym_jws.
+Print Assumptions c16_other_key_jws.
+Print Assumptions c16_roundtrip_sym_jwe.
+Print Assumptions c16_tamper_sym_jwe.
+Print Assumptions c16_tamper_cbc_hmac.
+Print Assumptions c16_ct_tag_boundary.
+Print Assumptions jose_b64_total.
+Print Assumptions jose_unpad_total.
+Print Assumptions jose_keyunwrap_total.
+Print Assumptions jose_compact_parse_total.
+Print Assumptions jose_aead_decrypt_total.
+Print Assumptions jose_cbc_decrypt_total.
+Print Assumptions jose_ecdsa_split_total.
+Print Assumptions c16_unpad_unguarded_refuted.
+Print Assumptions c16_keyunwrap_unguarded_refuted.
+Print Assumptions c16_nonce_unguarded_refuted.
+Print Assumptions c16_compact_nonvacuous.
+Print Assumptions c16_keywrap_nonvacuous.
+Print Assumptions c16_pkcs7_nonvacuous.
+Print Assumptions c16_fixed_width_nonvacuous.
